@@ -14,6 +14,7 @@
      the code left the placeholder: every `?` between mem::replace and the re-assignment) and
      later calls are total: sread_total / sseek_total are stated for any state of IcompS, the
      one after an error included (comp_stream_usable_after_error). *)
+From MLA Require Import Limit.
 From MLA Require Import Base Stream CompLayer CompFailSafe Total TotalComp CompLayerS CompLayerSProofs.
 From Coq Require Import ZifyBool ZifyNat ZifyN.
 Open Scope N_scope.
@@ -22,6 +23,7 @@ Definition DstepBounded {dstate : Type} (dstep : dstate -> bytes -> N -> dresult
   forall ds inp room, match dstep ds inp room with (_, k, out, _) => k <= len inp /\ len out <= room end.
 
 Section STotal.
+  Context {LIM : Limit}.
   Variable BLOCK : N.
   Variable dstate : Type.
   Variable dinit : dstate.
